@@ -32,6 +32,10 @@ def oracle(func: str, a: Dict[str, Any]) -> Tuple[Any, Dict[str, Any]]:
         bwd = {"input": O ** -half, "weight": B ** -half}  # dX sums over O; dW over rows
         if a.get("bias") is not None:
             bwd["bias"] = B ** -half  # db sums over rows
+        if a.get("scale_power") is not None:
+            # documented generalisation: count ** -power, powers for (output, grad(input), grad(weight|bias))
+            po, pi_, pp = a["scale_power"]
+            out, bwd = I ** -po, {"input": O ** -pi_, "weight": B ** -pp, "bias": B ** -pp}
         return out, bwd
     if func == "matmul":
         M, K = a["left"].shape[-2:]
@@ -47,6 +51,9 @@ def oracle(func: str, a: Dict[str, Any]) -> Tuple[Any, Dict[str, Any]]:
         bwd = {"input": (Co * k / (G * s)) ** -half, "weight": B ** -half}  # interior count
         if a.get("bias") is not None:
             bwd["bias"] = B ** -half
+        if a.get("scale_power") is not None:
+            po, pi_, pp = a["scale_power"]
+            out, bwd = (Cg * k) ** -po, {"input": (Co * k / (G * s)) ** -pi_, "weight": B ** -pp, "bias": B ** -pp}
         return out, bwd
     if func == "add":
         from ..extlib import broadcast
